@@ -1422,6 +1422,11 @@ impl Interpreter {
         // Nothing of it is waiting to be resumed any more
         self.suspended_for_order = None;
         self.wait_graph = WaitGraph::new();
+        // ... and the orders it issued, the cancellations it asked for and the answers it
+        // never consumed are nobody's: the next run must not hand them to the host as its own
+        self.pending_orders.clear();
+        self.cancelled_orders.clear();
+        self.order_responses.clear();
         self.active_module_env = None;
         self.active_module_path = None;
     }
